@@ -628,6 +628,32 @@ def primitive_relations(tdgl, rnd, ev):
             counts[f"{kind} tilted (not a multiple of 180, {'w != h' if kind == 'box' else 'a != b'})"] += 1
         else:
             counts[f"{kind} other"] += 1
+    # box(w, h, points=p, center=c) over aspect ratios up to 1000 and small p, against the harness' own rectangle
+    for _ in range(3):
+        short = rnd.choice([0.01, 0.02, 0.1, 0.5, 1.0])
+        long_ = round(short * rnd.choice([1, 3, 10, 40, 100, 400, 1000]), 4)
+        w, h = (short, long_) if rnd.random() < 0.5 else (long_, short)
+        p = rnd.choice([4, 5, 8, 12, 20, 50, 101])
+        c = np.array([round(rnd.uniform(-3, 3), 2), round(rnd.uniform(-3, 3), 2)])
+        what = f"box({w}, {h}, points={p}, center={tuple(c)})"
+        try:
+            A = tdgl.Polygon("thin", points=G.box(w, h, points=p, center=tuple(c)))
+        except Exception as ex:
+            ev.append({"rel": "ident", "same": False, "expect": True, "clause": f"box primitive is a polygon ({type(ex).__name__})", "what": what})
+            continue
+        av = np.asarray(A.points)
+        corners = c + np.array([(-w / 2, -h / 2), (w / 2, -h / 2), (w / 2, h / 2), (-w / 2, h / 2)])
+        ev.append({"rel": "zero", "x": [int(min(10 ** 9, round(float(np.abs(av - k).max(axis=1).min()) / min(w, h) * 10 ** 6))) for k in corners], "tol": 2,
+                   "clause": "PointsMapWithShapes (the four corners of box(w, h) are vertices)", "what": what})
+        ev.append({"rel": "area", "a0": int(round(1.0 * Q_AREA * 100)), "a1": int(round(A.area / (w * h) * Q_AREA * 100)), "num": 1, "den": 1,
+                   "clause": "AreaLaw (box(w, h) has area w*h)", "what": what})
+        loc = np.array([[rnd.uniform(-0.75, 0.75), rnd.uniform(-0.75, 0.75)] for _ in range(40)])
+        loc = loc[(np.abs(np.abs(loc[:, 0]) - 0.5) > 0.02) & (np.abs(np.abs(loc[:, 1]) - 0.5) > 0.02)]
+        pts = c + loc * np.array([w, h])
+        ev.append({"rel": "bits", "x": _bits((np.abs(loc[:, 0]) < 0.5) & (np.abs(loc[:, 1]) < 0.5)), "y": _bits(A.contains_points(pts)),
+                   "clause": "PointsMapWithShapes (membership in box(w, h, center) is |x-x0|<w/2 and |y-y0|<h/2)", "what": what})
+        ev.append(dict(_flags(A), what=what))
+        counts["thin box (aspect >= 40)" if max(w, h) >= 40 * min(w, h) else "box vs own rectangle"] += 1
     # circle(r, center) is the ellipse with equal axes, moved to the centre
     r, c = round(rnd.uniform(0.4, 2.5), 2), (round(rnd.uniform(-2, 2), 2), round(rnd.uniform(-2, 2), 2))
     n = rnd.choice([8, 24, 100])
@@ -710,6 +736,7 @@ def relation_trace(tdgl, args, tmp):
     (a2, b2), (c2, d2) = S.bbox
     S = S.translate((a + c) / 2 - (a2 + c2) / 2 + 0.3 * rnd.uniform(-1, 1) * (c - a), (b + d) / 2 - (b2 + d2) / 2 + 0.3 * rnd.uniform(-1, 1) * (d - b))
     nset = 0
+    surv_total = [0]
     for kind, opr in (("union", "+"), ("intersection", "*"), ("difference", "-")):
         form = rnd.randrange(3)
         pb, sb = _hash_ints(P.points), _hash_ints(S.points)
@@ -728,6 +755,25 @@ def relation_trace(tdgl, args, tmp):
         ev.append({"rel": "setop", "kind": kind, "a": _bits(P.contains_points(pts)), "b": _bits(S.contains_points(pts)),
                    "r": _bits(R_.contains_points(pts)), "clause": "SetOpsArePointwise", "what": what})
         ev.append(dict(_flags(R_), what=what))
+        # operand vertices that lie strictly on the result's outline (strictly outside / inside the other operand) are
+        # vertices of the result, unmoved (the operands sit at off-grid coordinates)
+        from shapely.geometry import Point as _Pt
+
+        rv = np.asarray(R_.points)
+        keepP = {"union": False, "intersection": True, "difference": False}[kind]     # vertex of P survives iff inside S == keepP
+        keepS = {"union": False, "intersection": True, "difference": True}[kind]      # vertex of S survives iff inside P == keepS
+        devs_q, nsurv = [], 0
+        for V, O, keep in ((np.asarray(P.points)[:-1], S, keepP), (np.asarray(S.points)[:-1], P, keepS)):
+            ring, poly = O.polygon.exterior, O.polygon
+            for vtx in V:
+                pt = _Pt(vtx)
+                if ring.distance(pt) > 1e-6 and poly.contains(pt) == keep:
+                    dmin = float(np.abs(rv - vtx).max(axis=1).min())
+                    devs_q.append(int(min(10 ** 9, round(dmin * 10 ** 9))))
+                    nsurv += 1
+        ev.append({"rel": "zero", "x": devs_q, "tol": 1, "clause": "SetOpsArePointwise (operand vertices on the result's outline survive unmoved)",
+                   "what": what})
+        surv_total[0] += nsurv
         ev.append({"rel": "same", "x": pb + sb, "y": _hash_ints(P.points) + _hash_ints(S.points), "clause": "NonInplaceNeverMutates", "what": what})
         ev.append({"rel": "ident", "same": (R_ is P) or (R_ is S), "expect": False, "clause": "NonInplaceNeverMutates", "what": what})
     # device = film minus holes (holes may stick out of the film; membership is still film and not holes)
@@ -743,7 +789,23 @@ def relation_trace(tdgl, args, tmp):
     film = P.copy().set_name("film")
     xi = rnd.choice(XIS + [0.3, 7.5])
     layer = tdgl.Layer(coherence_length=xi, london_lambda=2.0 * xi, thickness=0.1)
-    dev = tdgl.Device("d", layer=layer, film=film, holes=holes)
+    # two terminals; polygon names may coincide ACROSS kinds (film/hole, film/terminal, hole/terminal): a polygon derived by a
+    # set operation inherits its parent's name, and only holes among holes / terminals among terminals must differ
+    from tdgl.geometry import box as _gbox
+
+    terms = [tdgl.Polygon("t0", points=_gbox(0.3 * w, 0.1 * h, points=12, center=((a + c) / 2, d))),
+             tdgl.Polygon("t1", points=_gbox(0.1 * w, 0.3 * h, points=12, center=(a, (b + d) / 2)))]
+    names = rnd.choice(["distinct", "film/hole", "film/terminal", "hole/terminal"])
+    if names == "film/hole":
+        holes[0].name = film.name
+    elif names == "film/terminal":
+        terms[0].name = film.name
+    elif names == "hole/terminal":
+        terms[1].name = holes[0].name
+    dev = tdgl.Device("d", layer=layer, film=film, holes=holes, terminals=terms)
+
+    def parts(D):       # the shapes of a device, addressed through device.film / holes[i] / terminals[i]
+        return [D.film] + list(D.holes) + list(D.terminals)
     pts = _probes(rnd, [film] + holes, 48)
     what = f"Device(film, {len(holes)} holes)"
     for D, w2 in ((dev, what), (dev.copy(), what + ".copy()")):
@@ -762,10 +824,28 @@ def relation_trace(tdgl, args, tmp):
     r3 = D3.translate(dx, dy, inplace=True)
     for Dt, w3 in ((D2, f"Device(xi={xi}).translate({dx}, {dy})"), (D3, f"Device(xi={xi}).translate({dx}, {dy}, inplace=True)")):
         dq = []
-        for new, old in zip(Dt.polygons, dev.polygons):
+        for new, old in zip(parts(Dt), parts(dev)):
             d = np.asarray(new.points) - (np.asarray(old.points) + np.array([dx, dy])) if np.shape(new.points) == np.shape(old.points) else np.array([1e3])
             dq += [int(max(-10 ** 9, min(10 ** 9, round(v * 10 ** 6)))) for v in (float(np.abs(d).max()),)]
-        ev.append({"rel": "zero", "x": dq, "tol": 5, "clause": "PointsMapWithShapes (Device.translate moves by (dx, dy) in length units)", "what": w3})
+        ev.append({"rel": "zero", "x": dq, "tol": 5, "clause": "PointsMapWithShapes (Device.translate moves film, every hole and every terminal by (dx, dy) in length units)",
+                   "what": w3 + f" names {names}"})
+    # rotate / scale: every shape of the device (film, holes[i], terminals[i]) is the image of the original one
+    (fa, fb), (fc, fd) = film.bbox
+    org2 = (round((fa + fc) / 2 + 0.4, 3), round((fb + fd) / 2 - 0.3, 3))
+    o2 = np.array(org2)
+    deg2 = rnd.choice([90, 33.0, -120.5])
+    th2 = math.radians(deg2)
+    R2 = np.array([[math.cos(th2), -math.sin(th2)], [math.sin(th2), math.cos(th2)]])
+    fx2, fy2 = rnd.choice([(-1, 1), (2, 0.5), (1.5, 1.5), (-0.5, -2)])
+    for Dt, mp, w3 in ((dev.rotate(deg2, origin=org2), lambda q_: (q_ - o2) @ R2.T + o2, f"Device.rotate({deg2}, origin={org2})"),
+                       (dev.scale(xfact=fx2, yfact=fy2, origin=org2), lambda q_: (q_ - o2) * np.array([fx2, fy2]) + o2, f"Device.scale({fx2}, {fy2}, origin={org2})")):
+        dq = []
+        for new, old in zip(parts(Dt), parts(dev)):
+            want, got = mp(np.asarray(old.points)[:-1]), np.asarray(new.points)
+            dmax = max(float(np.abs(got - v_).max(axis=1).min()) for v_ in want)      # every mapped vertex is a vertex of the new shape
+            dq.append(int(max(-10 ** 9, min(10 ** 9, round(dmax * 10 ** 6)))))
+        ev.append({"rel": "zero", "x": dq, "tol": 5, "clause": "PointsMapWithShapes (film, every hole and every terminal of a device are transformed)",
+                   "what": w3 + f" names {names}"})
     ev.append({"rel": "ident", "same": r3 is D3, "expect": True, "clause": "InplaceReturnsSelf", "what": "Device.translate(inplace=True)"})
     nprim = primitive_relations(tdgl, rnd, ev)
     # probe points of a device travel with its film and holes (any angle, any origin, any place)
@@ -800,4 +880,4 @@ def relation_trace(tdgl, args, tmp):
         ev.append({"rel": "same", "x": _hash_ints(pp), "y": _hash_ints(devp.probe_points), "clause": "NonInplaceNeverMutates (probe points)",
                    "what": "non-in-place device transforms"})
     return {"kind": "rel", "ev": ev, "key": f"rel seed={args['seed']} place={place}: " + " ; ".join(steps), "nset": nset, "seed": args["seed"],
-            "transforms": args.get("transforms", 3), "nprobe": nprobe, "place": list(place), "nprim": dict(nprim), "xi": rel_xi}
+            "transforms": args.get("transforms", 3), "nprobe": nprobe, "place": list(place), "nprim": dict(nprim), "xi": rel_xi, "names": names, "nsurv": surv_total[0]}
